@@ -15,6 +15,7 @@ type addrRoot struct {
 	T     types.Type
 	field int
 	alloc *ssa.Alloc
+	fresh bool // the object was allocated by this very function: writes cannot touch memory that existed before
 }
 
 func (e *Engine) rootOf(v ssa.Value) addrRoot {
@@ -22,37 +23,40 @@ func (e *Engine) rootOf(v ssa.Value) addrRoot {
 	case *ssa.FieldAddr:
 		r := e.rootOf(a.X)
 		if r.kind == "structptr" {
-			return addrRoot{kind: "obj", T: r.T, field: a.Field}
+			return addrRoot{kind: "obj", T: r.T, field: a.Field, fresh: r.fresh}
 		}
 		return r
 	case *ssa.IndexAddr:
 		switch xt := a.X.Type().Underlying().(type) {
 		case *types.Slice:
-			return addrRoot{kind: "elem", T: xt.Elem()}
+			_, mk := a.X.(*ssa.MakeSlice)
+			return addrRoot{kind: "elem", T: xt.Elem(), fresh: mk}
 		case *types.Pointer:
-			return addrRoot{kind: "elem", T: xt.Elem().Underlying().(*types.Array).Elem()}
+			_, al := a.X.(*ssa.Alloc)
+			return addrRoot{kind: "elem", T: xt.Elem().Underlying().(*types.Array).Elem(), fresh: al}
 		}
 	case *ssa.Alloc:
 		el := a.Type().Underlying().(*types.Pointer).Elem()
 		if at, ok := el.Underlying().(*types.Array); ok {
-			return addrRoot{kind: "elem", T: at.Elem()}
+			return addrRoot{kind: "elem", T: at.Elem(), fresh: true}
 		}
 		if !a.Heap {
 			return addrRoot{kind: "local", alloc: a, T: el}
 		}
 	}
+	_, fresh := v.(*ssa.Alloc)
 	pt, ok := v.Type().Underlying().(*types.Pointer)
 	if !ok {
 		return addrRoot{kind: "unknown"}
 	}
 	el := pt.Elem()
 	if _, ok := el.Underlying().(*types.Struct); ok {
-		return addrRoot{kind: "structptr", T: el}
+		return addrRoot{kind: "structptr", T: el, fresh: fresh}
 	}
 	if at, ok := el.Underlying().(*types.Array); ok {
-		return addrRoot{kind: "elem", T: at.Elem()}
+		return addrRoot{kind: "elem", T: at.Elem(), fresh: fresh}
 	}
-	return addrRoot{kind: "cell", T: el}
+	return addrRoot{kind: "cell", T: el, fresh: fresh}
 }
 
 func (e *Engine) hint(name string, s Sort) string {
@@ -82,6 +86,22 @@ func (e *Engine) addMap(mt types.Type, out map[string]bool) {
 // storeMods adds the heap names a store through addr may change. Locals are reported via cb.
 func (e *Engine) storeMods(addr ssa.Value, out map[string]bool, local func(*ssa.Alloc)) {
 	r := e.rootOf(addr)
+	if r.fresh {
+		tmp := map[string]bool{}
+		e.storeModsRoot(r, tmp, local)
+		for k := range tmp {
+			if k == "*" {
+				out[k] = true
+			} else {
+				out["new:"+k] = true
+			}
+		}
+		return
+	}
+	e.storeModsRoot(r, out, local)
+}
+
+func (e *Engine) storeModsRoot(r addrRoot, out map[string]bool, local func(*ssa.Alloc)) {
 	switch r.kind {
 	case "obj":
 		si := e.u.StructInfo(e.u.SortOf(r.T))
@@ -148,7 +168,7 @@ func (e *Engine) typedHavocType(t types.Type, out map[string]bool) {
 func (e *Engine) declaredMods(ct *Contract, fn *ssa.Function, sig *types.Signature, out map[string]bool) {
 	// evaluate the entries in a scratch unit with symbolic parameters
 	un := e.newUnit(fn, "scratch")
-	fr := &Frame{un: un, fn: fn, vals: map[ssa.Value]Val{}}
+	fr := &Frame{un: un, fn: fn, vals: map[ssa.Value]Val{}, pkgPath: ct.Pkg}
 	st := State{R: tTrue, H: map[string]Term{}}
 	env := map[string]Val{}
 	bindParam := func(name string, t types.Type) {
@@ -382,25 +402,41 @@ func (e *Engine) instrMods(fn *ssa.Function, ins ssa.Instruction, out map[string
 	case *ssa.Defer:
 		e.calleeMods(fn, &x.Call, out, depth)
 	case *ssa.Alloc:
+		tmp := map[string]bool{}
 		if x.Heap {
 			el := x.Type().Underlying().(*types.Pointer).Elem()
 			if _, ok := el.Underlying().(*types.Struct); ok {
-				e.addStructFields(el, out)
+				e.addStructFields(el, tmp)
 			} else if at, ok := el.Underlying().(*types.Array); ok {
-				e.addElem(at.Elem(), out)
+				e.addElem(at.Elem(), tmp)
 			} else {
-				out[e.hint("C_"+TypeKey(el), ArrSort(SInt, e.u.SortOf(el)))] = true
+				tmp[e.hint("C_"+TypeKey(el), ArrSort(SInt, e.u.SortOf(el)))] = true
 			}
 		} else if at, ok := x.Type().Underlying().(*types.Pointer).Elem().Underlying().(*types.Array); ok {
-			e.addElem(at.Elem(), out)
+			e.addElem(at.Elem(), tmp)
+		}
+		for k := range tmp {
+			out["new:"+k] = true
 		}
 	case *ssa.MakeSlice:
-		e.addElem(x.Type().Underlying().(*types.Slice).Elem(), out)
+		tmp := map[string]bool{}
+		e.addElem(x.Type().Underlying().(*types.Slice).Elem(), tmp)
+		for k := range tmp {
+			out["new:"+k] = true
+		}
 	case *ssa.MakeMap:
-		e.addMap(x.Type(), out)
+		tmp := map[string]bool{}
+		e.addMap(x.Type(), tmp)
+		for k := range tmp {
+			out["new:"+k] = true
+		}
 	case *ssa.Convert:
 		if sl, ok := x.Type().Underlying().(*types.Slice); ok && isString(x.X.Type()) {
-			e.addElem(sl.Elem(), out)
+			tmp := map[string]bool{}
+			e.addElem(sl.Elem(), tmp)
+			for k := range tmp {
+				out["new:"+k] = true
+			}
 		}
 	}
 }
